@@ -90,6 +90,7 @@ func init() {
 			"the matcher - or a constant within the frozen table (Matches(0, <=1)); position and occurrence come from fields of the same name in every sibling and are different fields. " +
 			"(G6) match_type: every non-constant string that reaches the flag-interpreting loop of H is result 0 of one package-local validator; the validator's switch over the characters ends in a default arm that returns a " +
 			"constructed error on every path; every flag character the validator lets through is interpreted by an arm of H's switch, constant defaults consist of interpreted characters, and the arms set pairwise different non-zero flag constants. " +
+			"(G8) inside every callback that a predicate over expressions hands to the expression tree walker, dynamic-type tests are made on the visited node, never on a captured expression (the root of the walk): otherwise an argument that merely contains a column or a non-deterministic call is cached as a constant. " +
 			"(G7) caches: the nodes keep a computed result and a compiled matcher across rows under bool fields assigned from calls of one package predicate over receiver fields (conjunctions of such calls and of other flags). " +
 			"Every store of the kept result happens under a flag whose calls name every argument field that is evaluated in Eval or evaluated by H (pattern, match_type); every store of a freshly compiled matcher that is conditional on a flag " +
 			"(compile once if the flag holds / recompile per row if it does not) is under a flag that names the pattern and match_type fields, and a node that compiles under a flag also compiles under its negation (otherwise one of the two kinds of pattern is never compiled and the node answers NULL). A missing argument makes the value of the first row the answer for every row, in this sibling only.",
@@ -99,8 +100,8 @@ func init() {
 			"range validation of position / occurrence (REGEXP_REPLACE rejects position < 1 and position > length in the wrapper, REGEXP_INSTR / REGEXP_SUBSTR leave both to the matcher, which answers 'no match': a disagreement that is visible but not claimed); " +
 			"that an error stored in the cached-error field is not overwritten by a later call of the storing function before Eval reads it (needs the correlation with the cacheRegex flag); errors of other callees (argument evaluation, conversions) which follow the same idiom but are not sources here; " +
 			"release of the matcher (Close/Dispose pairing): at the pinned go-icu-regex version the C memory is also released by runtime.AddCleanup and Close is idempotent, so a leak or a double close does not change any REGEXP_* result and is not a necessary condition of this property; " +
-			"which expressions the cacheability predicate (canBeCached) accepts - only that every argument is submitted to it; that the per-row path really recompiles; sharing of one matcher between a node and its WithChildren copy; the gms_pure_go build variant (internal/regex/regex_pure.go) is not loaded in the quick tier.",
-		Run: func(c *Ctx) { runC33(c, c33Repo) },
+			"which node kinds the cacheability predicate (canBeCached) treats as row-dependent - only that every argument is submitted to it and (G8) that its walker callback tests the visited node; that the per-row path really recompiles; sharing of one matcher between a node and its WithChildren copy; the gms_pure_go build variant (internal/regex/regex_pure.go) is not loaded in the quick tier.",
+		Run: func(c *Ctx) { runC33(c, c33Repo); runC33Visit(c, c33Repo, 1) },
 		Fixture: func(c *Ctx, fx *Prog) {
 			cfg := c33Config{
 				FuncRel: "testdata/c33/fn", RegexRel: "testdata/c33/rx", RegexName: "Regex",
@@ -112,6 +113,9 @@ func init() {
 			}
 			expectFixture(c, fx, "c33: second compiler, swapped helper arguments, dropped / nulled / overwritten errors, unchecked cached error, missing NULL test, matcher used without nil guard, subject without unwrap, position arithmetic, swapped position/occurrence, validator bypassed, default arm without error, uninterpreted flag, duplicate flag constant, cache flags that forget an argument",
 				c33FixtureWant, func(fc *Ctx) { runC33(fc, cfg) })
+			expectFixture(c, fx, "c33 visit: a predicate whose walker callback tests the captured root instead of the visited node",
+				[]string{"C33-G8:visitsRoot/callback#1/type switch on expr", "C33-G8:visitsRoot/callback#1/type assertion on expr"},
+				func(fc *Ctx) { runC33Visit(fc, cfg, 0) })
 		},
 		FixturePkgs: []string{"./testdata/c33/fn", "./testdata/c33/rx", "./testdata/c33/sqlx"},
 	})
